@@ -201,6 +201,42 @@ class Interp:
             return ("e", ec[0], ec[1])
         return None
 
+    def _holder_refs(self, call: ast.Call, fi: FuncInfo) -> dict[str, ast.expr]:
+        """field -> argument expression, for a constructor call of a class that did not exist when the rules were
+        written and whose `__init__` only stores its parameters (`self.f = p`): the object refers to its arguments"""
+        try:
+            tg = self.prog.resolve_call(call, fi)
+        except AnalysisError:
+            return {}
+        if len(tg) != 1 or tg[0].kind != "ctor" or tg[0].func is None or tg[0].cls is None or tg[0].func.qual in self._known_ctor_quals():
+            return {}
+        init = tg[0].func
+        selfname = init.positional_params()[0]
+        pnames = init.positional_params()[1:]
+        fields: dict[str, str] = {}
+        for st in init.node.body:
+            if isinstance(st, ast.Expr) and isinstance(st.value, ast.Constant):
+                continue
+            tgt = val = None
+            if isinstance(st, ast.Assign) and len(st.targets) == 1:
+                tgt, val = st.targets[0], st.value
+            elif isinstance(st, ast.AnnAssign) and st.value is not None:
+                tgt, val = st.target, st.value
+            if not (isinstance(tgt, ast.Attribute) and isinstance(tgt.value, ast.Name) and tgt.value.id == selfname and isinstance(val, ast.Name)):
+                return {}
+            fields[tgt.attr] = val.id
+        byparam: dict[str, ast.expr] = {}
+        for i, a in enumerate(call.args):
+            if isinstance(a, ast.Starred):
+                return {}
+            if i < len(pnames):
+                byparam[pnames[i]] = a
+        for kw in call.keywords:
+            if kw.arg is None:
+                return {}
+            byparam[kw.arg] = kw.value
+        return {f: byparam[pn] for f, pn in fields.items() if pn in byparam}
+
     def _known_ctor_quals(self) -> set[str]:
         kq = self.__dict__.get("_kq")
         if kq is None:
@@ -236,6 +272,28 @@ class Interp:
                     if ec is None and val.attr in ("value", "name") and isinstance(val.value, ast.Attribute):
                         ec = self.enum_value(val.value, stub)
                     cache[ck] = ec
+                elif isinstance(val, ast.Call) and isinstance(val.func, ast.Name):
+                    # `_STOP_X = _Stop(EventName.A, StopReason.B)`: a constant record (a row of a table written as data)
+                    k2, p2 = self.prog.lookup_name(val.func.id, None, m)
+                    if k2 == "class" and self._is_param_object(("c", p2.qual)) and "__init__" not in p2.methods:
+                        order = self.prog.all_fields(p2)
+                        fields: dict[str, Any] = {}
+                        ok = len(val.args) <= len(order) and all(kw.arg is not None for kw in val.keywords)
+
+                        def scalar(x: ast.expr) -> Any:
+                            if isinstance(x, ast.Constant) and (x.value is None or isinstance(x.value, (bool, int, float, str))):
+                                return ("c", x.value)
+                            if isinstance(x, ast.Attribute):
+                                return self.enum_value(x, stub)
+                            return None
+
+                        if ok:
+                            for i, a in enumerate(val.args):
+                                fields[order[i]] = scalar(a)
+                            for kw in val.keywords:
+                                fields[kw.arg] = scalar(kw.value)
+                        if ok and all(v is not None for v in fields.values()):
+                            cache[ck] = ("i", p2.qual, tuple(sorted(fields.items())))
         return cache[ck]
 
     @staticmethod
@@ -253,8 +311,22 @@ class Interp:
             return None if b is None else b + (e.attr,)
         return None
 
+    @staticmethod
+    def _canon(env: dict, path: Path) -> Path:
+        """`h.f...` where the holder object `h` was built with its field `f` bound to the local `v`
+        (`("$ref", h, f) -> ("al", (v,))`): the same object as `v...` - facts live under the one name"""
+        for _ in range(3):
+            if len(path) >= 2 and isinstance(path[0], str) and isinstance(path[1], str):
+                r = env.get(("$ref", path[0], path[1]))
+                if r is not None:
+                    path = r[1] + path[2:]
+                    continue
+            break
+        return path
+
     def record_at(self, env: dict, path: Path) -> Any:
         """value stored at `path` (flattened facts are re-assembled into a record)"""
+        path = self._canon(env, path)
         v = env.get(path)
         if v is not None and v != KILL:
             return v
@@ -267,6 +339,8 @@ class Interp:
             elif len(p) > n + 1 and p[:n] == path and val != KILL:
                 # nested: rebuild lazily
                 sub.setdefault(p[n], None)
+            elif n == 1 and len(p) == 3 and p[0] == "$ref" and p[1] == path[0]:
+                sub.setdefault(p[2], None)  # a field that is another local, by reference
         if ty is None and not sub:
             return None
         fields = []
@@ -516,18 +590,24 @@ class Interp:
 
     # ================================================================== env updates
     def _clear(self, env: dict, path: Path) -> None:
+        path = self._canon(env, path)
         n = len(path)
         for p in [p for p in env if p[:n] == path]:
             del env[p]
+        if n == 1:
+            for k in [k for k, v in env.items() if k[0] == "$ref" and (k[1] == path[0] or v[1][0] == path[0])]:
+                del env[k]
         if not is_temp(path):
             for k in [k for k, v in env.items() if k[0] == "$alias" and ((n == 1 and k[1] == path[0]) or v[1][:n] == path or path[: len(v[1])] == v[1])]:
                 del env[k]
 
     def _kill(self, env: dict, path: Path) -> None:
+        path = self._canon(env, path)
         self._clear(env, path)
         env[path] = KILL
 
     def _assign(self, env: dict, path: Path, val: Any) -> None:
+        path = self._canon(env, path)
         self._clear(env, path)
         if len(path) >= 2 and path[-1] != "$type" and not is_temp(path) and not self.client.track_attr(path[-1]):
             if val is not None and val != KILL and val[0] == "i":
@@ -657,11 +737,18 @@ class Interp:
 
         def push(nid: int, env: dict, cs: Any, w: int) -> None:
             lv = live[nid]
+            refs = [(p, v) for p, v in env.items() if p[0] == "$ref"]
+            if refs:
+                # what a live holder object refers to stays live with it
+                lv = lv | {"$ref"} | {v[1][0] for p, v in refs if p[1] in lv or p[1] in params}
+                refs_dead = [p for p, v in refs if p[1] not in lv and p[1] not in params]
+            else:
+                refs_dead = []
             dead = [
                 p
                 for p, v in env.items()
                 if p[0] not in params and ((v == KILL) or (not is_temp(p) and p[0] not in lv) or (p[0] == "$alias" and (p[1] not in lv or (v[1][0] not in lv and v[1][0] not in params))))
-            ]
+            ] + refs_dead
             if dead:
                 env = dict(env)
                 for p in dead:
@@ -708,6 +795,13 @@ class Interp:
                     for t in node.info["targets"]:
                         self._assign_target(env2, t, val, cfg)
                     src = node.info["value"]
+                    if isinstance(src, ast.Call) and len(node.info["targets"]) == 1 and isinstance(node.info["targets"][0], ast.Name):
+                        h = node.info["targets"][0].id
+                        for fld, arg in self._holder_refs(src, fi).items():
+                            if isinstance(arg, ast.Name) and arg.id != h and (arg.id in params or arg.id in self.prog.func_locals(fi)):
+                                for q in [q for q in env2 if q[:2] == (h, fld)]:
+                                    del env2[q]
+                                env2[("$ref", h, fld)] = ("al", (arg.id,))
                     if val is None and len(node.info["targets"]) == 1 and isinstance(node.info["targets"][0], ast.Name) and isinstance(src, ast.Attribute):
                         sp = self.path_of(src)
                         if sp is not None and sp[0] != node.info["targets"][0].id and (sp[0] in params or sp[0] in self.prog.func_locals(fi)):
@@ -891,7 +985,7 @@ class Interp:
             for p, v in exenv.items():
                 if p[0] != pname or len(p) < 2:
                     continue
-                tgt = cpath + p[1:]
+                tgt = self._canon(env2, cpath + p[1:])
                 if v == KILL:
                     self._clear(env2, tgt)
                     env2[tgt] = KILL
